@@ -30,9 +30,14 @@ func MatchLocal(eng *Engine) (bind inputrc.Bind, command func(), prefix bool) {
 		command = eng.commands[bind.Action]
 	}
 
-	if prefix {
+	switch {
+	case prefix:
 		core.MatchedPrefix(eng.keys, read...)
-	} else {
+	case bind.Action == "":
+		// Nothing in the local keymap wants those keys, including the ones that
+		// looked like the beginning of a sequence: all go to the main keymap.
+		core.MatchedKeys(eng.keys, nil, read...)
+	default:
 		core.MatchedKeys(eng.keys, matched, read[len(matched):]...)
 	}
 
